@@ -40,4 +40,76 @@ PROPS = {
         "level_text": "Proof: maskNumber/maskName modelled on bytes exactly as written; for every string: first two positions masked, output bytes are '*', blank or the input byte, at most four bytes in clear, a value with >= 5 non-blank bytes after position 2 always has one hidden; words of >= 4 runes show only their first two bytes. Facts regenerated from describe/file.go and achcli: protected accessors reach Fprintf only through masked variables under the right flags; -mask wires all three. The complement region (<= 4 characters after >= 2 blanks) is the known finding D20, proved as a counterexample on the model.",
         "level_note": "Trusted: Lean kernel; the mask correspondence stream (exhaustive strings up to length 5-6 over a 5-symbol alphabet incl. a 2-byte rune, plus random to field width) ties the model to the real functions through the verif hook; tabwriter/fmt not modelled.",
     },
+    "C04": {
+        "props_modules": ["Ach.Props.Layouts", "Ach.Props.C04"],
+        "streams": [("record", 13000, 130000)],
+        "level_text": "Proof: single-digit tampering of every protected field class is detected on the validation model - routing digits and check digit by the algebra of the 3-7-1 weights (units mod 10; all 8 positions, all replacements), fixed-width decimal fields by injectivity of digit strings, amounts through the batch total, control/header/file-control fields through the equalities validation tests; for every accepted batch/file. Truncation is not proved (Reader end-of-input checks not modelled): the oracle enumerates every truncation offset and every protected digit x 9 replacements per sampled file on the real Reader.",
+        "level_note": "Trusted: validation model of C03 (mirrors Batch.verify/File.ValidateWith), layout facts (which columns are which field). Truncation clause: oracle only.",
+    },
+    "C06": {
+        "props_modules": ["Ach.Props.C06"],
+        "streams": [("create", 3000, 30000)],
+        "level_text": "Partial proof: the index/slice-expression census of the functions reachable from the entry points is pinned to the regenerated source; for every input stream the Reader's loop flushes lines of 1..94 runes (long-line branches unreachable, padding total); padded sub-field accessors slice within bounds for every value; the offset-removal loop neither panics nor spins for every entry list. Nil dereferences on partially built files, third-party code, scheduling: not exhibited by a model - structure-aware fuzzing of text, JSON leaves, call sequences and all HTTP routes by the oracle.",
+        "level_note": "Trusted: model totality stands for termination only of the modelled loops; everything else is the oracle's search.",
+    },
+    "C07": {
+        "streams": [],
+        "level_text": "Proof (schema level): encoding/json's field rules restated; for every schema and every struct value satisfying fieldOK, decode(encode v) = v. Facts regenerated from the struct tags and layouts: every field that String()/Parse touch is exported (exceptions pinned: FileHeader's four constants; Addenda98.iatCorrectedData = known finding), every omitempty field has a zero constructor default (exceptions pinned) - the obligation that failed for D7 before its fix. Decode-path functions pinned by hash. Re-tabulation on decode = C05; text equality end to end: oracle.",
+        "level_note": "Trusted: encoding/json rules as restated; setBatchesFromJSON's CTX/ATX re-inference is not modelled (oracle found a defect there, known finding).",
+    },
+    "C08": {
+        "streams": [],
+        "level_text": "Proof: on the model of outFile.add/pickOutFile/findOutBatch/ordered-map Set and convertToFiles, for every list of files (any order, repeats, colliding traces) the multiset of (route, header key, entry) triples is conserved, any permutation of the inputs gives the same multiset, out-files have pairwise distinct routes and hold only their route's entries, and convertToFiles writes each route's entries in order, each into exactly one output batch, for every limit.",
+        "level_note": "Trusted: abstraction of entries/headers to keys (BatchHeader.Equal's fields; route = origin,destination); merge functions pinned by body hash; behaviour searched by the oracle on the real MergeFiles (multiset comparison, all permutations of <= 4 files).",
+    },
+    "C09": {
+        "streams": [],
+        "level_text": "Proof: loop invariant of convertToFiles relating the running line counter to the real size of the file being assembled gives: every written file has at most MaxLines records unless it holds a single entry, for every state and every MaxLines (0 or >= 2); accumulated batches stay strictly sorted by trace with unique traces; outputs are consecutive runs of those. Validity of outputs = C05 on each batch; dollar limit and one-file-per-route when unlimited: oracle (limits swept at size-1/size/size+1 and every boundary).",
+        "level_note": "Trusted: as C08. Dollar bound not yet proved (same invariant shape).",
+    },
+    "C10": {
+        "streams": [("pipeline", 600, 6000)],
+        "level_text": "Proof: the directory walk as a function of the tree (complete for the behaviour extracted from walkDir today; the old return-after-first-subdirectory behaviour has a counterexample), and the MergeDir goroutine pipeline as a labelled transition system with parameters read from the source (are the two sends inside a select with Done, errgroup.WithContext): invariant, delivery (merger multiset = accepted parseable files), progress/no deadlock for today's parameters, termination measure, error iff an accepted file is unparseable, schedule independence given order-independent merging (C08); the old parameters have a reachable deadlock. Data races and the Go memory model are not exhibited (oracle under delays; -race build).",
+        "level_note": "Trusted: channel/context/errgroup/WaitGroup contracts as modelled; gofacts Pipeline facts; the walk is tied by the pipeline correspondence stream (real MergeDir over fstest.MapFS with a recording acceptor vs the model).",
+    },
+    "C11": {
+        "streams": [],
+        "level_text": "Proof (standard batches): segment's credit and debit outputs together are a permutation of the input's entries, each side holds only its direction, using the regenerated case lists of segmentFileBatchAddEntry (disjoint, covering the standard codes); the numbering rule of File.Create and the exact condition under which the outputs' batch numbers validate, with the D8 counterexample proved on the model. IAT/ADV, Create/Validate of outputs, identification fields: oracle.",
+        "level_note": "Trusted: model of segmentFileBatches/File.Create numbering; lists from gofacts.",
+    },
+    "C12": {
+        "streams": [],
+        "level_text": "Proof: on the model of Flatten's merge loop, for every processing order (unstable sort): entries conserved (permutation), two groups with equal header signatures always share a trace number, and flattening the result again (any order) changes nothing. Flatten functions pinned by body hash.",
+        "level_note": "Trusted: header signature abstracted to a key (the real one is the first 87 BYTES of the rendered header: the oracle found that a multi-byte character shifts the cut - known finding); Copy()'s pointer sharing, Create of merged batches (C05) not modelled.",
+    },
+    "C14": {
+        "streams": [],
+        "level_text": "Partial proof: the regenerated census of assignments/mutator calls through the receiver in the read-only API is exactly the three known mutators (File.IsADV, FileHeader routing field methods, EntryDetail.PaymentTypeField); each is proved to be the identity on canonical values (what the Reader and the constructors produce); counterexample for an API-built header with a leading blank (known finding D16). Purity of the rest is syntactic (census), aliasing and the clock (D10) are not exhibited; the oracle snapshots JSON+text around sequences of the read-only calls.",
+        "level_note": "Trusted: census is one call level deep and syntactic.",
+    },
+    "C15": {
+        "streams": [],
+        "level_text": "Proof: on the validation model with its option guards exactly as written, acceptance is monotone in the option set for every input and every pair O <= O' (batch and file level); regenerated census of every reference to the 15 relaxation flags in package ach: in acceptance code each is 'if !flag {may reject}' or 'if flag {return nil}' - an inverted or new tightening guard breaks the obligation. Reader-level monotonicity on real texts: oracle over chains and all 2^15 sets on a corpus.",
+        "level_note": "Trusted: record-level checks are opaque option-independent conjuncts in the model; their monotonicity is what the guard census stands for.",
+    },
+    "C16": {
+        "streams": [("io", 3000, 40000)],
+        "level_text": "Proof: bufio.Writer/Scanner and charset.NewReader contracts modelled; for every file, line ending, buffer size, failure offset k and failure mode Write returns an error, and when it returns nil the sink holds exactly the rendering (also for failures that surface only at the final Flush - 'Write ends in return w.w.Flush()' and 'no dropped error' are regenerated facts); Reader: a non-EOF failure at any offset is reported, except io.ErrUnexpectedEOF inside the first 1024 bytes, which charset.NewReader treats as end of input - proved as a counterexample on the model and reproduced on the real Reader (known finding).",
+        "level_note": "Trusted: the stated library contracts (bufio, io.ReadFull, MultiReader, x/net charset v0.39.0); tied by the io correspondence stream (real Writer/Reader over fault injectors vs model, every mode).",
+    },
+    "C17": {
+        "streams": [],
+        "level_text": "Proof: the HTTP handlers modelled as a state machine over a map id -> file with library calls as uninterpreted functions; refinement to the abstract map for every request sequence; the property's clauses as corollaries (GET returns the stored file, contents = writer output, validate/build/flatten/segment/batch endpoints = the library call, DELETE then not found, duplicate create refused and harmless, key isolation); 67 server functions pinned by body hash. Deviations of the real server from a faithful store are stated as theorems about the model (rejected create is still stored; read-like requests write back; contents failures answer 200) and checked by the oracle.",
+        "level_note": "Trusted: HTTP parsing, mux, go-kit plumbing, JSON encoding not modelled; files have value semantics in the model (aliasing between stored files is outside it).",
+    },
+    "C18": {
+        "streams": [("repo", 4000, 60000)],
+        "level_text": "Proof: repository methods as micro-steps under an RW lock, any number of clients, every interleaving: lock invariant, no two conflicting shared accesses enabled (under the lock discipline read from the source: which methods take Lock/RLock, deferred unlock, nothing before the lock), forward simulation to the atomic map, linearizability of complete runs with real-time order; the four sequential clauses on the spec; counterexample when StoreFile takes only the read lock. Go memory model / RWMutex internals not exhibited (porcupine + -race in the oracle).",
+        "level_note": "Trusted: sync.RWMutex contract, sequentially consistent memory; sequential semantics tied by the repo correspondence stream (real repository vs spec on random call sequences).",
+    },
+    "C19": {
+        "streams": [],
+        "level_text": "Partial proof: the sync.Pool buffer discipline as an LTS over N goroutines (get, write*, String copy, reset, put; nested gets): ownership invariant and noninterference - every goroutine's outputs equal its sequential outputs for every interleaving; the discipline (every getBuffer paired with defer saveBuffer, no escape) is a regenerated fact over all 49 users; counterexample when a buffer is put back while still referenced; operations on distinct repository keys commute. Data races as such, shared dictionaries, Prometheus: not exhibited (oracle: sequential vs concurrent byte-for-byte, -race).",
+        "level_note": "Trusted: sync.Pool and bytes.Buffer contracts; translation of the users into op programs.",
+    },
 }
